@@ -37,7 +37,9 @@ def w1_w3(ctx, W):
                 ctx.report('C20.W1', loc, d['line'], key, 'slot overlaps another slot of %s' % w)
             used |= m
             st = s.get('statics', {})
-            if st.get('pos') != s['pos'] or st.get('len') != s['len'] or st.get('mask') != m:
+            # a static member that nothing odr-uses is not instantiated and has no value; those that have one must agree
+            if any(st.get(k_) is not None and st.get(k_) != v_ for k_, v_ in (('pos', s['pos']), ('len', s['len']), ('mask', m))) \
+                    or st.get('mask') is None:
                 ctx.report('C20.W1', loc, d['line'], key, 'ProxySlot statics (pos/len/mask) disagree with its template arguments')
             if s.get('unknown'):
                 ctx.report('C20.W1', loc, d['line'], key, 'unknown proxy kind %s' % s['kind'])
@@ -155,16 +157,11 @@ def w4_proxies(ctx, W):
                 wg = '{(return (. $0 %s::lp))}' % RS
                 wsb = None
                 # write-one-to-clear: under value != 0 clears lp and bcn, otherwise nothing
-                ifs = [n for n in ps['body'].get('body', [])]
-                okl = len(ifs) == 1 and ifs[0].get('k') == 'if' and ifs[0].get('else') is None \
-                    and render(ifs[0]['cond'], ps) in ('(!= $1 0)', '$1')
-                if okl:
-                    wr = {}
-                    for n in walk(ifs[0]['then']):
-                        if n.get('k') == 'assign':
-                            p = field_path(n['lhs'])
-                            wr[p[1] if p else '?'] = render(n['rhs'], ps)
-                    okl = wr == {'lp': '0', 'bcn': '0'}
+                from .. import summ, boolform
+                eff = summ.summary(ctx, ps, asserts='ignore').effect_conditions()
+                VAL = boolform.A('$1')
+                okl = {k_[:4] for k_ in eff} == {('write', '(. $0 %s::lp)' % RS, '=', '0'), ('write', '(. $0 %s::bcn)' % RS, '=', '0')} \
+                    and all(boolform.equivalent(c, VAL) is True for c in eff.values())
                 if not okl:
                     ctx.report(R, ps, ps['body'], key + '::Set', 'LPRedirector::Set is not `if (value) { lp = 0; bcn = 0; }`')
                 wsb = sb
